@@ -133,3 +133,18 @@ package types
 //@ loop 0: invariant len(relayPrices) == #i
 //@ loop 0: invariant forall j :: 0 <= j && j < #i ==> relayPrices[j].SignalID == absfn("StringToBytes32#0", prices[j].SignalID)
 //@        && relayPrices[j].Price == (prices[j].Price == 0 ? 0 : absfn("tickmath.PriceToTick#0", prices[j].Price))
+
+// ---- C06: the constants of the time-weighting --------------------------------------------------------------
+// powers are scaled by 32; the sections end at 1/32, 3/32, 7/32, 15/32 and 32/32 of the total power (i.e. they span
+// 1/32, 1/16, 1/8, 1/4 and the rest) and weigh 6, 4, 2, 1.1 and 1 (stored times ten)
+//@ func getPowerScalingFactor
+//@ ensures result == 32
+//@ func getMultipliers
+//@ ensures result[0] == 60 && result[1] == 40 && result[2] == 20 && result[3] == 11 && result[4] == 10
+//@ func getSections
+//@ ensures result[0] == 1 && result[1] == 3 && result[2] == 7 && result[3] == 15 && result[4] == 32
+// entries are ordered newest first and, at equal time, highest power first: a sorts before b iff it is newer, or
+// equally new and more powerful
+//@ func MedianValidatorPriceInfos$lit0
+//@ ensures (result < 0) <==> (priceA.Timestamp > priceB.Timestamp || (priceA.Timestamp == priceB.Timestamp && priceA.Power > priceB.Power))
+//@ ensures (result == 0) <==> (priceA.Timestamp == priceB.Timestamp && priceA.Power == priceB.Power)
